@@ -4,11 +4,23 @@ package generator
 
 // Contracts for package generator (comment-only; checked by /verif/engine).
 
-//@ pred GenOK(g *generator) bool = g != nil && method.IndexWF(g.lookup) && method.IndexWF(g.extend) && g.conf != nil && g.namer != nil
+// representation invariant of the generator: both indexes are well-formed, every registered generated method
+// carries its configuration and definition
+//@ pred GenVal(g generator) bool = method.IndexWF(g.lookup) && method.IndexWF(g.extend) && g.conf != nil && g.namer != nil
+//@     && (forall s xtype.Signature, j int :: has(g.lookup.Exact, s) && 0 <= j && j < len(g.lookup.Exact[s]) ==>
+//@            g.lookup.Exact[s][j].Item.Method != nil && g.lookup.Exact[s][j].Item.Method.Definition != nil)
+//@     && (forall j int :: 0 <= j && j < len(g.lookup.Update) ==> g.lookup.Update[j] != nil && g.lookup.Update[j].Method != nil && g.lookup.Update[j].Method.Definition != nil)
+//@ pred GenOK(g *generator) bool = g != nil && GenVal(*g)
+// the current method context is registered in the lookup index, and so is every method on its origin path
+//@ pred CtxLinked(g *generator, ctx *builder.MethodContext) bool = ctx != nil && method.ValidID(g.lookup, ctx.IndexID)
+//@     && (forall j int :: 0 <= j && j < len(g.lookup.ByID(ctx.IndexID).OriginPath) ==> method.ValidID(g.lookup, g.lookup.ByID(ctx.IndexID).OriginPath[j]))
+
+//@ reveal builder.GenInv(gen builder.Generator) = dynIs[*generator](gen) && GenOK(unboxed[*generator](gen))
+//@ reveal builder.GenCtx(gen builder.Generator, ctx *builder.MethodContext) = dynIs[*generator](gen) && unboxed[*generator](gen) != nil && CtxLinked(unboxed[*generator](gen), ctx)
 
 //@ func typeMismatch
 //@   props C03 C11
-//@   requires source != nil && target != nil
+//@   requires@C13 source != nil && target != nil
 //@   ensures result != nil
 //@   ensures strings.Contains(result.Cause, "TypeMismatch: Cannot convert ")
 //@   ensures source.Pointer && !target.Pointer ==> strings.Contains(result.Cause, "useZeroValueOnPointerInconsistency")
@@ -29,7 +41,10 @@ package generator
 
 //@ func generator.buildNoLookup
 //@   props C03 C11 C04
-//@   requires GenOK(g) && builder.CtxOK(ctx) && source != nil && target != nil
+//@   propagates
+//@   requires@C13 GenCall(g, ctx, sourceID, source, target)
+//@   ensures@C13 builder.GenInv(g) && builder.GenCtx(g, ctx)
+//@   ensures err == nil ==> result1 != nil && result1.Code != nil
 //@   ensures old(builder.NoRule(ctx, source, target)) ==> err != nil
 //@   ensures old(builder.NoRule(ctx, source, target) && source.Pointer && !target.Pointer && !(source.Struct && target.Struct))
 //@           ==> strings.Contains(err.Cause, "useZeroValueOnPointerInconsistency")
@@ -38,14 +53,16 @@ package generator
 
 //@ func generator.assignNoLookup
 //@   props C03 C11 C04
-//@   requires GenOK(g) && builder.CtxOK(ctx) && source != nil && target != nil
+//@   propagates
+//@   requires@C13 GenCall(g, ctx, sourceID, source, target) && builder.AssignOK(assignTo)
+//@   ensures@C13 builder.GenInv(g) && builder.GenCtx(g, ctx)
 //@   ensures old(builder.NoRule(ctx, source, target)) ==> err != nil
 //@   at call rule.Assign#1 assert RuleOrderOK(rule, ctx, source, target)
 //@   at call typeMismatch#1 assert !builder.AnyPureRule(ctx, source, target)
 
 //@ func generator.getOverlappingStructDefinition
 //@   props C05
-//@   requires GenOK(g) && builder.CtxOK(ctx) && source != nil && target != nil
+//@   requires@C13 builder.GenInv(g) && builder.GenCtx(g, ctx) && builder.CtxOK(ctx) && source != nil && target != nil
 //@   assigns nothing
 //@   ensures !(source.Struct && target.Struct) ==> result == nil
 
@@ -57,3 +74,98 @@ package generator
 //@ func fileManager.renderFiles
 //@   props C09 C15
 //@   maprange 1 unordered-result names
+
+// ---- C07: wrapping mode selection ----
+//@ func generator.wrap
+//@   props C07
+//@   requires@C13 builder.CtxOK(ctx) && (forall j int :: 0 <= j && j < len(errPath) ==> builder.PathElem(errPath[j]))
+//@   assigns nothing
+//@   ensures ctx.Conf.WrapErrorsUsing != "" ==> result == errPath.WrapErrorsUsing(ctx.Conf.WrapErrorsUsing, errStmt)
+//@   ensures ctx.Conf.WrapErrorsUsing == "" && ctx.Conf.WrapErrors ==> result == errPath.WrapErrors(errStmt)
+//@   ensures ctx.Conf.WrapErrorsUsing == "" && !ctx.Conf.WrapErrors ==> result == errStmt
+
+// ---- the generator side of the builder.Generator interface ----
+// builder.GenInv / builder.GenCtx are the abstract forms of GenOK / CtxLinked (revealed above); every
+// generator method that can be reached from a builder preserves them.
+//@ pred GenCall(g *generator, ctx *builder.MethodContext, sourceID *xtype.JenID, source *xtype.Type, target *xtype.Type) bool =
+//@     builder.GenInv(g) && builder.GenCtx(g, ctx) && builder.CallOK(ctx, sourceID, source, target)
+//@ pred CtxLinkedVal(g generator, ctx *builder.MethodContext) bool = ctx != nil && method.ValidID(g.lookup, ctx.IndexID)
+//@     && (forall j int :: 0 <= j && j < len(g.lookup.ByID(ctx.IndexID).OriginPath) ==> method.ValidID(g.lookup, g.lookup.ByID(ctx.IndexID).OriginPath[j]))
+
+//@ func generator.Build
+//@   props C03 C06
+//@   propagates
+//@   requires@C13 GenCall(g, ctx, sourceID, source, target)
+//@   ensures@C13 builder.GenInv(g) && builder.GenCtx(g, ctx)
+//@   ensures err == nil ==> result1 != nil && result1.Code != nil
+//@   at call g.shouldCreateSubMethod#1 assert !has(g.extend.Exact, xtype.SignatureOf(source, target)) && !has(g.lookup.Exact, xtype.SignatureOf(source, target))
+//@   at call g.buildNoLookup#* assert !has(g.extend.Exact, xtype.SignatureOf(source, target)) && !has(g.lookup.Exact, xtype.SignatureOf(source, target))
+//@   at call g.createSubMethod#* assert !has(g.extend.Exact, xtype.SignatureOf(source, target)) && !has(g.lookup.Exact, xtype.SignatureOf(source, target))
+
+//@ func generator.Assign
+//@   props C03 C06
+//@   propagates
+//@   requires@C13 GenCall(g, ctx, sourceID, source, target) && builder.AssignOK(assignTo)
+//@   ensures@C13 builder.GenInv(g) && builder.GenCtx(g, ctx)
+//@   at call g.shouldCreateSubMethod#1 assert !has(g.extend.Exact, xtype.SignatureOf(source, target)) && !has(g.lookup.Exact, xtype.SignatureOf(source, target))
+//@   at call g.assignNoLookup#* assert !has(g.extend.Exact, xtype.SignatureOf(source, target)) && !has(g.lookup.Exact, xtype.SignatureOf(source, target))
+//@   at call g.createSubMethod#* assert !has(g.extend.Exact, xtype.SignatureOf(source, target)) && !has(g.lookup.Exact, xtype.SignatureOf(source, target))
+
+// extend is consulted before the declared/generated methods; a hit is used (or is an error), only
+// "not registered at all" falls through to the automatic rules
+//@ func generator.callExisting
+//@   props C06 C03
+//@   propagates
+//@   requires@C13 GenVal(g) && CtxLinkedVal(g, ctx) && builder.CallOK(ctx, sourceID, source, target)
+//@   ensures@C13 GenVal(g) && CtxLinkedVal(g, ctx)
+//@   ensures has(g.extend.Exact, xtype.SignatureOf(source, target)) || has(g.lookup.Exact, xtype.SignatureOf(source, target)) ==> result1 != nil || err != nil
+//@   ensures err == nil && result1 == nil ==> result0 == nil
+//@   ensures err == nil && result1 != nil ==> result1.Code != nil
+//@   at call g.lookup.Get#1 assert !has(g.extend.Exact, signature)
+
+//@ func generator.CallMethod
+//@   props C06 C07 C03
+//@   propagates
+//@   requires@C13 builder.GenInv(g) && builder.GenCtx(g, ctx) && builder.MethodOK(ctx) && ctx.Namer != nil && definition != nil && target != nil
+//@   ensures@C13 builder.GenInv(g) && builder.GenCtx(g, ctx)
+//@   ensures err == nil ==> result1 != nil && result1.Code != nil
+
+//@ func generator.ReturnError
+//@   props C07
+//@   requires@C13 builder.GenInv(g) && builder.GenCtx(g, ctx) && builder.MethodOK(ctx) && id != nil
+//@   ensures@C13 builder.GenInv(g) && builder.GenCtx(g, ctx)
+//@   ensures result1 ==> result0 != nil
+
+//@ func generator.shouldCreateSubMethod
+//@   props C06
+//@   requires@C13 builder.GenInv(g) && builder.GenCtx(g, ctx) && builder.MethodOK(ctx) && source != nil && target != nil
+//@   ensures@C13 builder.GenInv(g) && builder.GenCtx(g, ctx)
+
+//@ func generator.createSubMethod
+//@   props C06 C03
+//@   propagates
+//@   requires@C13 GenCall(g, ctx, sourceID, source, target)
+//@   requires !has(g.lookup.Exact, xtype.SignatureOf(source, target))
+//@   ensures@C13 builder.GenInv(g) && builder.GenCtx(g, ctx)
+//@   ensures err == nil ==> result1 != nil && result1.Code != nil
+
+//@ func generator.buildMethod
+//@   props C14 C06 C03
+//@   propagates
+//@   requires@C13 builder.GenInv(g) && genMethod != nil && genMethod.Method != nil && genMethod.Method.Definition != nil
+//@   requires@C13 method.ValidID(g.lookup, genMethod.IndexID) && g.lookup.ByID(genMethod.IndexID) == genMethod
+//@   requires@C13 forall j int :: 0 <= j && j < len(genMethod.OriginPath) ==> method.ValidID(g.lookup, genMethod.OriginPath[j])
+//@   ensures@C13 builder.GenInv(g)
+
+//@ func generator.qualMethod
+//@   props C01 C18
+//@   requires@C13 g != nil && g.conf != nil && m != nil
+//@   assigns nothing
+//@   ensures result != nil
+
+// ---- C17/C06: every registration error of a declared method aborts the generation ----
+//@ func setupGenerator
+//@   props C17 C06 C03
+//@   propagates
+//@   requires@C13 converter != nil && n != nil
+//@   ensures err == nil ==> result != nil
